@@ -21,6 +21,11 @@ the access controller and the signature check accept (F29) are kept; they are me
 and the trim is asked for only once the listing is longer than the limit (F30) -/
 def loadJoin : List String := ["fetch", "ctxcheck", "headcheck", "ownlog", "held", "canappend", "verify", "merge", "listing", "trim"]
 
+/-- `events.handleSubscriber`, when its context ends (`BusClose`, `drain := true`): a goroutine keeps
+reading the bus subscription, THEN `Close` is called, and only after it has returned is the reader
+stopped — an emitter blocked on the full subscription holds the lock `Close` needs (F38) -/
+def subscriberClose : List String := ["drain", "close", "stopdrain"]
+
 /-- `oneonone` `monitorTopic` (`Connect.monitor`): a message read from the pairwise topic is handed on
 only after the test that its sender is the peer the channel was opened for -/
 def monitorTopic : List String := ["next", "fromtarget", "emit"]
